@@ -795,14 +795,14 @@ struct IoHarness : Harness {
 };
 
 // ================================================================= C08
-const char *const WRITE_ERRS[] = {"ENOSPC", "EFBIG", "EIO", "EINTR", "short_ENOSPC", "short_EIO"};
+const char *const WRITE_ERRS[] = {"ENOSPC", "EFBIG", "EIO", "EINTR", "short_ENOSPC", "short_EIO", "lost_EIO"};
 
 Json gen_fault(Rng &fr) {
 	int w = (int)fr.below(100);
 	int64_t at = (int64_t)fr.below(1000);
 	bool pers = fr.chance(0.35);
 	int64_t arg = (int64_t)fr.below(1 << 20);
-	if (w < 45) return fault_json("write", at, WRITE_ERRS[fr.below(6)], pers, arg);
+	if (w < 45) { const char *e = WRITE_ERRS[fr.below(7)]; return fault_json("write", at, e, pers && strncmp(e, "lost_", 5) != 0, arg); }
 	if (w < 55) return fault_json("quota", 0, fr.chance(0.7) ? "ENOSPC" : "EFBIG", true, arg);
 	if (w < 70) return fault_json("close", at, fr.chance(0.5) ? "EIO" : "ENOSPC", pers, 0);
 	if (w < 80) return fault_json("seek", at, "EIO", pers, 0);
@@ -1324,6 +1324,7 @@ Json IoHarness::gen_c07(uint64_t runseed, const std::string &tier) {
 			plan["alloc_fault"] = a;
 		}
 	}
+	{ Rng oc(runseed, "c_handle_occupied"); if (reader == "c_read" && oc.chance(0.4)) plan["c_handle_occupied"] = Json(true); }
 	{
 		// the two command-line tools on the same image (own stream)
 		Rng tr(runseed, "tools");
@@ -1362,14 +1363,15 @@ std::string shape_rule(const Snapshot &s) {
 	return "";
 }
 
-// ledger verdict after an object was destroyed: everything it owned is back.
-// A release that names the wrong size is counted but not judged here (C20's ledger clause).
+// ledger verdict after an object was destroyed: everything it owned is back, every block under the size it was
+// obtained with ("safely destructible" includes an allocator that uses the size it is told). Earlier rounds left a
+// wrong size to C20's ledger clause; since the repairs of the reader the unchanged tree never names one here.
 std::string ledger_after_destroy(Env &env, int owner, size_t viol_before) {
 	const auto &v = env.L.violations();
 	std::string bad;
 	for (size_t i = viol_before; i < v.size(); i++) {
 		if (v[i].kind == "size-mismatch") env.ctx.count("probe:dealloc_size_mismatch");
-		else if (bad.empty()) bad = v[i].kind;
+		if (bad.empty()) bad = v[i].kind;
 	}
 	if (!bad.empty()) return "unclean-destruction:" + bad;
 	if (env.L.live_blocks_of(owner)) return "blocks-live-after-destruction";
@@ -1529,6 +1531,16 @@ bool c07_c(C07Case &c, const Bytes &img, const std::string &reader, const std::v
 	disk::set_config(config_from(c.plan["config"]));
 	disk::clear_oplog();
 	if (!faults.empty()) { disk::clear_fired(); env.fired_seen.clear(); disk::arm(faults); }
+	// The file reader of the C interface replaces whatever the handle holds (it frees, then constructs): in some runs the
+	// handle already holds the undamaged table, so that "a failed read leaves the handle empty" is also shown for a handle
+	// that was occupied. (The memory reader refuses an occupied handle, as the C++ operation does: not done there.)
+	if (reader == "c_read" && c.plan.getb("c_handle_occupied")) {
+		disk::put("/sim/valid.fits", c.valid);
+		int rc0 = readsplinefitstable("/sim/valid.fits", &h);
+		env.drain("setup", true);
+		disk::clear_oplog();
+		if (rc0 == 0) ctx.count("probe:c_read_into_occupied_handle");
+	}
 	ctx.crumb("%s|%s|read", reader.c_str(), c.fk.c_str());
 	Bytes copy = img;
 	if (reader == "c_read_mem") {
